@@ -107,7 +107,10 @@ func (s *SelfManaged) Receive(c *actor.Context) {
 		s.handleMemberPing(c)
 	case memberLeave:
 		member := s.members.GetByHost(msg.ListenAddr)
-		s.removeMember(member)
+		// an unreachable address that is not a member is none of our business.
+		if member != nil {
+			s.removeMember(member)
+		}
 	case *actor.Ping:
 	case actor.Initialized:
 		_ = msg
